@@ -2,7 +2,7 @@
    Models: PoolLife/Model.v (registry: add_worker / attach / restart_workers / close / terminate /
    __exit__ composed with the workers' control model Ctrl/Model.v) and Pool/Model.v [rounds]
    (consecutive runs of one pool with deaths and restart_workers in between). *)
-From PW Require Pool.Model Pool.Inv Pool.Rounds.
+From PW Require Pool.Model Pool.Inv Pool.Rounds Ctrl.RemoteLive Gen.RemoteLive.
 From PW Require Import Ctrl.Model Ctrl.Proofs PoolLife.Model PoolLife.Proofs.
 From Coq Require Import Permutation.
 
@@ -68,8 +68,22 @@ Proof. vm_compute. repeat split. Qed.
 Example C09_example_rounds : Pool.Rounds.example_rounds_statement.
 Proof. exact Pool.Rounds.example_rounds. Qed.
 
+(* remote workers of a pool: Pool._close skips a worker for which is_alive() says False and otherwise relies on wait()/terminate() -
+   "by contract" in PoolLife/Model.v.  The contract, for the parent side as regenerated from the source (Gen/RemoteLive.v): an answer
+   "dead" of any of the three is only given when the child process on the server is gone. *)
+Theorem C09_remote_workers_are_skipped_only_when_their_process_is_gone :
+  forall s e s', Ctrl.RemoteLive.inv s = true ->
+    Ctrl.RemoteLive.run Ctrl.RemoteLive.MAlive e Gen.RemoteLive.gen_remote_is_alive s = (Some true, s') -> Ctrl.RemoteLive.proc s' = false.
+Proof.
+  intros s e s' I R.
+  destruct (Ctrl.RemoteLive.sound_means Ctrl.RemoteLive.MAlive Gen.RemoteLive.gen_remote_is_alive ltac:(vm_compute; reflexivity) s e I)
+    as [dead [s2 [R2 [I2 D]]]].
+  rewrite R in R2. inversion R2; subst. apply D; reflexivity.
+Qed.
+
 Print Assumptions C09_no_worker_outlives_its_pool.
 Print Assumptions C09_close_closes.
 Print Assumptions C09_closed_pool_is_inert.
 Print Assumptions C09_failed_add_is_not_leaked.
 Print Assumptions C09_each_run_answers_its_own_inputs.
+Print Assumptions C09_remote_workers_are_skipped_only_when_their_process_is_gone.
